@@ -142,7 +142,7 @@ def job(cfg):
                     bad = gridmc.first_bad(err, tol)
                     if bad is not None:
                         pt = int(np.nonzero(good)[0][bad])
-                        case = dict(cfg, mode=mode, entry=entry, label=p.label, ham=hl, point=pt, tol=tol)
+                        case = dict(cfg, mode=mode, entry=entry, n_batch=int(tr.n_batch), label=p.label, ham=hl, point=pt, tol=tol)
                         res.violation("%s/%s/%s/ham:%s/par:%s" % (kind, mode, "energy", gridmc.ham_class(hl), gridmc.param_class(p.label)),
                                       case, dict(impl=E[bad], ref=E_ref[bad], err=float(err[bad]), tol=tol,
                                                  n_bad=int((~(err <= tol)).sum()), n_points=ng, max_err=float(np.nanmax(np.where(np.isfinite(err), err, np.nan)))))
@@ -242,6 +242,11 @@ def replay(case):
     E_ref = (np.conj(p.ket) @ H @ phi) / (np.conj(p.ket) @ phi)
     hd = gridmc.build_ham_data(n, h0, h1, chol, trial, p.wave_data)
     sl = slice(i, i + 1)
-    E = eval_energy(trial, p.wave_data, hd, mode, "single", Wa[sl], None if Wb is None else Wb[sl], na, nb)[0]
+    if cfg.get("entry") in ("batched", "eager"):  # batch-order defects only show on the whole batch
+        tr = gridmc.with_batch(trial, cfg.get("n_batch", 1))
+        hd = gridmc.build_ham_data(n, h0, h1, chol, tr, p.wave_data)
+        E = eval_energy(tr, p.wave_data, hd, mode, cfg["entry"], Wa, Wb, na, nb)[i]
+    else:
+        E = eval_energy(trial, p.wave_data, hd, mode, "single", Wa[sl], None if Wb is None else Wb[sl], na, nb)[0]
     err = abs(E - E_ref) / max(1.0, abs(E_ref))
     return (not err <= cfg["tol"], dict(impl=E, ref=E_ref, err=float(err), tol=cfg["tol"]))
